@@ -149,6 +149,12 @@ def f2_cells():
             ("continuation_at_start", "\\\n  x", "x"),
             ("continuation_then_escape", "p\\\n   \\tq", "p\tq")]:
         out.append(P(f"f2_string_{nm}", "F2", Program([fn_main([("a", i32)], i32, [ExprStmt(em(StrLit(text, spelling=spelling)))], Var("a", i32))]), {"trace", "value"}))
+    # f-strings: `{{` / `}}` denote single braces wherever they stand in the literal text, next to interpolations and to
+    # non-ASCII text (sixth seeding round: `}}` was only collapsed in parts that also contain `{{`)
+    av = Var("a", i32)
+    for nm, parts in [("close_only", ["}"]), ("open_only", ["{"]), ("braces_around_value", ["{", av, "}"]), ("close_after_unicode", ["\u00e9", av, "\u00fc}\u00df"]),
+                      ("mixed", ["a}b{c", av, "}}"]), ("empty_braces", ["{}"]), ("close_then_value_then_open", ["}", av, "{"]), ("value_between_closes", ["x}", av, "}y"])]:
+        out.append(P(f"f2_fstring_{nm}", "F2", Program([fn_main([("a", i32)], i32, [ExprStmt(em(FStr(parts)))], av)]), {"trace", "value"}))
     # unconstrained literals default to i32 / f64
     x = Var("x", "i32")
     out.append(P("f2_default_i32", "F2", Program([fn_main([("a", "bool")], "bool", [Let("x", "i32", Lit("i32", 2147483647, spelling="2147483647"))],
